@@ -59,6 +59,16 @@ type HScen struct {
 	Registered bool `json:"registered"`
 	Panic      bool `json:"panic"`
 	Recovery   bool `json:"recovery"`
+	// NilCtl (with Registered false): the controller type is an output of a scoped result object that leaves it nil
+	// for this request - for the Handle wrapper that is a controller that cannot be resolved
+	NilCtl bool `json:"nilctl,omitempty"`
+}
+
+type wOther struct{}
+type wCtlOut struct {
+	godi.Out
+	Ctl   *wController
+	Other *wOther
 }
 
 type WCase struct {
@@ -159,6 +169,99 @@ func touch(s godi.Scope) {
 }
 
 var errMw = errors.New("middleware says no")
+
+// handleProbe (C03, through the integrations): two Handle-wrapped handlers for one *transient* controller type run in
+// one request - two resolution sites: the constructor must run twice and the two methods see different instances.
+type wTransient struct{ n int }
+
+func handleProbe() ProbeReport {
+	rep := ProbeReport{}
+	names := []string{"net/http", "chi", "gin", "echo", "fiber"}
+	for integ := 0; integ < 5; integ++ {
+		rep.Rounds++
+		runs := 0
+		var seen []*wTransient
+		c := godi.NewCollection()
+		c.AddTransient(func() *wTransient { runs++; return &wTransient{runs} })
+		p, err := c.Build()
+		if err != nil {
+			rep.Bad = append(rep.Bad, names[integ]+": "+err.Error())
+			continue
+		}
+		func() {
+			defer func() {
+				if v := recover(); v != nil {
+					rep.Bad = append(rep.Bad, fmt.Sprintf("%s: panic: %v", names[integ], v))
+				}
+			}()
+			switch integ {
+			case 0:
+				h := func() http.HandlerFunc {
+					return godihttp.Handle(func(t *wTransient, w http.ResponseWriter, r *http.Request) { seen = append(seen, t) })
+				}
+				h1, h2 := h(), h()
+				godihttp.ScopeMiddleware(p)(http.HandlerFunc(func(w http.ResponseWriter, r *http.Request) { h1(w, r); h2(w, r) })).
+					ServeHTTP(httptest.NewRecorder(), httptest.NewRequest("GET", "/", nil))
+			case 1:
+				h := func() http.HandlerFunc {
+					return godichi.Handle(func(t *wTransient, w http.ResponseWriter, r *http.Request) { seen = append(seen, t) })
+				}
+				h1, h2 := h(), h()
+				godichi.ScopeMiddleware(p)(http.HandlerFunc(func(w http.ResponseWriter, r *http.Request) { h1(w, r); h2(w, r) })).
+					ServeHTTP(httptest.NewRecorder(), httptest.NewRequest("GET", "/", nil))
+			case 2:
+				gin.SetMode(gin.ReleaseMode)
+				e := gin.New()
+				e.Use(godigin.ScopeMiddleware(p))
+				h := func() gin.HandlerFunc {
+					return godigin.Handle(func(t *wTransient, c *gin.Context) { seen = append(seen, t) })
+				}
+				e.GET("/", h(), h())
+				e.ServeHTTP(httptest.NewRecorder(), httptest.NewRequest("GET", "/", nil))
+			case 3:
+				e := echo.New()
+				e.HideBanner = true
+				e.Use(godiecho.ScopeMiddleware(p))
+				h := func() echo.HandlerFunc {
+					return godiecho.Handle(func(t *wTransient, c echo.Context) error { seen = append(seen, t); return nil })
+				}
+				h1, h2 := h(), h()
+				e.GET("/", func(c echo.Context) error {
+					if err := h1(c); err != nil {
+						return err
+					}
+					return h2(c)
+				})
+				e.ServeHTTP(httptest.NewRecorder(), httptest.NewRequest("GET", "/", nil))
+			default:
+				app := fiber.New(fiber.Config{DisableStartupMessage: true})
+				app.Use(godifiber.ScopeMiddleware(p))
+				h := func(last bool) fiber.Handler {
+					return godifiber.Handle(func(t *wTransient, c *fiber.Ctx) error {
+						seen = append(seen, t)
+						if last {
+							return c.SendStatus(200)
+						}
+						return c.Next()
+					})
+				}
+				app.Get("/", h(false), h(true))
+				if resp, err := app.Test(httptest.NewRequest("GET", "/", nil), 5000); err == nil {
+					resp.Body.Close()
+				}
+				_ = app.Shutdown()
+			}
+		}()
+		_ = p.Close()
+		switch {
+		case len(seen) != 2:
+			rep.Bad = append(rep.Bad, fmt.Sprintf("%s: %d of 2 controller methods ran", names[integ], len(seen)))
+		case runs != 2 || seen[0] == seen[1]:
+			rep.Bad = append(rep.Bad, fmt.Sprintf("%s: two resolution sites of a transient controller in one request: the constructor ran %d times (same instance: %v)", names[integ], runs, seen[0] == seen[1]))
+		}
+	}
+	return rep
+}
 
 // wInHandler, when set, runs inside the request handler of every integration (the request-cancellation probe)
 var wInHandler func(s godi.Scope)
@@ -544,6 +647,19 @@ func runHandle(h *HScen) []string {
 	var evs []string
 	add := func(e string) { mu.Lock(); evs = append(evs, e); mu.Unlock() }
 	p := webProvider(false, h.Registered)
+	if h.NilCtl {
+		_ = p.Close()
+		c := godi.NewCollection()
+		c.AddScoped(func(ctx context.Context) *wprobe {
+			rec, _ := ctx.Value(recKey{}).(*wrec)
+			return &wprobe{rec: rec}
+		})
+		c.AddScoped(func() wCtlOut { return wCtlOut{Other: &wOther{}} })
+		var err error
+		if p, err = c.Build(); err != nil {
+			panic(err)
+		}
+	}
 	defer p.Close()
 	rec := &wrec{}
 	escaped := func() {
@@ -758,6 +874,9 @@ func genWebCases(seed int64, n int, thorough bool) []WCase {
 				}
 			}
 		}
+		for _, rc := range []bool{false, true} {
+			cases = append(cases, WCase{Kind: "handle", H: &HScen{Integ: integ, Scope: true, Registered: false, Recovery: rc, NilCtl: true}})
+		}
 	}
 	// concurrent batches and request sequences
 	for i := 0; i < n; i++ {
@@ -778,12 +897,18 @@ func cmdWeb(args []string) {
 	thorough := fs.Bool("thorough", false, "")
 	corpus := fs.String("corpus", "", "")
 	cprobe := fs.Bool("cancelprobe", false, "")
+	hprobe := fs.Bool("handleprobe", false, "")
 	fs.Parse(args)
 	_ = corpus
 	slog.SetDefault(slog.New(slog.NewTextHandler(io.Discard, nil)))
 	gin.DefaultWriter, gin.DefaultErrorWriter = io.Discard, io.Discard
 	if *cprobe {
 		b, _ := json.Marshal(cancelProbe())
+		fmt.Println(string(b))
+		return
+	}
+	if *hprobe {
+		b, _ := json.Marshal(handleProbe())
 		fmt.Println(string(b))
 		return
 	}
